@@ -108,6 +108,23 @@ def route (T i : Nat) : Nat × Nat := (i % T, i / T)
 def fileOf (reqs : List (Nat × CReq)) (e : Nat) : Bytes :=
   dataBytes ((reqs.filter (fun r => r.1 = e)).map (·.2))
 
+/-- what arrives on a compressor thread's channel: a client's request for one of its encoders, or
+a client's `Shutdown` -/
+inductive TMsg where
+  | req (e : Nat) (r : CReq)
+  | shutdown
+deriving Repr, DecidableEq
+
+/-- the thread consumes its channel in order and leaves its loop at the first `Shutdown`; whatever
+is still queued behind it is never written -/
+def consumed : List TMsg → List (Nat × CReq)
+  | [] => []
+  | .shutdown :: _ => []
+  | .req e r :: rest => (e, r) :: consumed rest
+
+/-- content of the file of encoder `e` once the thread has exited -/
+def threadFile (msgs : List TMsg) (e : Nat) : Bytes := fileOf (consumed msgs) e
+
 /-! ## `log show` and the listener -/
 
 /-- `log show`: header then content for every selected non-empty log -/
